@@ -30,6 +30,15 @@ BRIDGES = {
     "mouette/attributes/glob.py::mean_face_area": ["mean_face_area_all", "mean_face_area_first", "mean_face_area_clamped"],
     "mouette/attributes/glob.py::mean_cell_volume": ["mean_cell_volume_all", "mean_cell_volume_clamped"],
     "mouette/attributes/glob.py::mean_edge_length": ["mean_edge_length_all", "mean_edge_length_clamped"],
+    "mouette/attributes/attr_corners.py::corner_angles": ["corner_angles_bridge"],
+    "mouette/attributes/interpolate.py::interpolate_vertices_to_faces": ["interpolate_vertices_to_faces_at", "interpolate_vertices_to_faces_bridge"],
+    # all four weight modes are translated; 'sum' and 'uniform' are bridged to the model, 'area' / 'angle' are tied by the oracle only
+    "mouette/attributes/interpolate.py::interpolate_faces_to_vertices": ["interpolate_faces_to_vertices_sum", "interpolate_faces_to_vertices_uniform"],
+    "mouette/attributes/interpolate.py::scatter_vertices_to_corners": ["scatter_vertices_to_corners_bridge"],
+    # all three modes translated; 'sum' bridged (scatter-add over the corners), 'uniform' / 'angle' tied by the oracle only
+    "mouette/attributes/interpolate.py::average_corners_to_vertices": ["average_corners_to_vertices_sum"],
+    # all three modes translated; 'sum' and 'uniform' bridged
+    "mouette/attributes/interpolate.py::average_corners_to_faces": ["average_corners_to_faces_sum", "average_corners_to_faces_uniform"],
 }
 EXTRA_SOURCE_THEOREMS = ["face_area_source_rigid", "face_barycenter_source_rigid", "edge_length_source_rigid", "cell_volume_source_rigid"]
 TITLE = "Geometric quantities match their definitions, invariant under rigid motion"
@@ -680,11 +689,64 @@ def _history(case):
     return out
 
 
+# =================================================================================================
+# needle family: a non-degenerate, well-conditioned RIGHT-ANGLED needle triangle (sharp angle eps in 1e-2 .. 1e-7 at one vertex, right
+# angle at the next one, so that the circumcentre is the midpoint of the hypotenuse: condition number ~1), next to an ordinary triangle,
+# with the needle face written in its three cyclic orders, under the case's rigid motion.  The circumcentre (and area, barycentre) must
+# equal the textbook value (exact Fractions on the float coordinates actually handed over) RELATIVE to the circumradius / magnitude.
+# The unchanged tree's error is ~1.5e-15/eps (measured: 1.4e-8 at eps = 1e-7); tolerance max(1e-9, 1e-13/eps).
+# =================================================================================================
+NEEDLE_EPS = [1e-2, 1e-4, 1e-6, 3e-7, 1e-7]
+
+
+def _needle(case):
+    import mouette as M
+    A = M.attributes
+    nd = case["needle"]
+    eps, L, kf = float(nd["eps"]), float(nd["L"]), float(nd["k"])
+    P0 = [[0.0, 0.0, 0.0], [L, 0.0, 0.0], [L, L * eps * kf, 0.0], [L / 2, -0.75 * L, 0.0]]
+    P = U.apply_motion(P0, nd["q"], nd["t"]) if nd.get("q") else P0
+    P = [[float(c) for c in p] for p in P]
+    out = []
+    tol = max(1e-9, 1e-13 / eps)
+    opts = case.get("opts", {})
+    for rot in range(3):
+        f0 = [(rot + i) % 3 for i in range(3)]
+        F = [f0, [0, 3, 1]]
+        m = build_mesh("surf", P, F, "vec")
+        E = [U.fvec(p) for p in P]
+        for key, fn, width in (("fcirc", A.face_circumcenter, 3), ("farea", A.face_area, 1), ("fbary", A.face_barycenter, 3)):
+            try:
+                a = fn(m, persistent=bool(opts.get("persistent")), dense=bool(opts.get("dense", True)))
+                got = _alist(a, len(F), width)[:width]
+            except Exception as e:  # noqa
+                out.append(_finding(f"C07/needle/{key}/raises", f"{key} raises on a non-degenerate right-angled needle triangle (sharp angle {eps:g} rad, "
+                                    "circumcentre = midpoint of the hypotenuse)", f"face written {f0}: {type(e).__name__}: {e}"))
+                continue
+            a_, b_, c_ = (E[i] for i in f0)
+            ab, ac = U.vsub(b_, a_), U.vsub(c_, a_)
+            n = U.vcross(ab, ac)
+            if key == "fcirc":
+                w = U.vcross(U.vsub(U.vscale(U.vdot(ab, ab), ac), U.vscale(U.vdot(ac, ac), ab)), n)
+                ref = [float(x) for x in U.vadd(a_, U.vscale(1 / (2 * U.vdot(n, n)), w))]
+                mag = math.sqrt(float(U.vdot(U.vsub(U.fvec(ref), a_), U.vsub(U.fvec(ref), a_))))
+            elif key == "farea":
+                ref = [math.sqrt(float(U.vdot(n, n))) / 2]; mag = ref[0]
+            else:
+                ref = [float(x) / 3 for x in U.vadd(U.vadd(a_, b_), c_)]; mag = max(L, max(abs(x) for x in ref))
+            err = max(abs(g - r) for g, r in zip(got, ref)) / mag if all(g == g for g in got) else float("inf")
+            if not err <= tol:
+                out.append(_finding(f"C07/needle/{key}", f"{key} of a non-degenerate right-angled needle triangle differs from its textbook value "
+                                    "(relative to the circumradius / magnitude)", f"sharp angle {eps:g}, face written {f0}: {got} vs {ref} (relative error {err:.3g}, tolerance {tol:.3g})"))
+    return out
+
+
 def oracle(case):
     out = []
     kind, V, X, opts, attrs = case["t"], case["V"], case["X"], case["opts"], case.get("attrs")
     _set_tol(case)
     obs = _obs(case)
+    if case.get("needle"): out += _needle(case)
     if case.get("rep") in ("int32", "int16"):
         # narrow integer coordinates: same values as with float coordinates (defect fixed at mesh construction; reported under its own
         # key if it returns, before the other clauses flood)
@@ -1062,6 +1124,9 @@ def _decorate(rng, case, metas):
         nK = sum(len(f) for f in case["X"])
         case["attrs"] = {"va": [_dy(rng, -4, 4) for _ in case["V"]], "fa": [_dy(rng, -4, 4) for _ in case["X"]],
                          "ca": [_dy(rng, -4, 4) for _ in range(nK)], "const": rng.choice([1.0, -2.5, 3.25, 0.75])}
+        if rng.random() < 0.15:
+            case["needle"] = {"eps": rng.choice(NEEDLE_EPS), "L": rng.choice([0.5, 1.0, 2.0, 3.0]), "k": rng.choice([0.75, 1.0, 1.25]),
+                              "q": list(rng.choice(U.QUATS)), "t": [_dy(rng, -3, 3), _dy(rng, -3, 3), _dy(rng, -3, 3)]}
     return case
 
 
@@ -1156,6 +1221,7 @@ def classify(case, obs):
     ks.append(f"opts:P{int(o['persistent'])}D{int(o['dense'])}Z{int(o['zb'])}A{int(o['angles_first'])}")
     ks += ["meta:" + m for m in case.get("meta", [])]
     ks.append("rep:" + case.get("rep", "vec"))
+    if case.get("needle"): ks.append(f"needle:eps={case['needle']['eps']:g}")
     if case.get("hist"):
         h = case["hist"]
         ks.append("hist:move-" + h["move"]["kind"]); ks.append(f"hist:second-P{int(h['p2'])}D{int(h['d2'])}-{'same' if h['sfx2'] is None else 'other'}-name")
@@ -1213,6 +1279,13 @@ def search_on_break(rng, broken, mismatches):
 # =================================================================================================
 # translated fragments: the two index tables
 # =================================================================================================
+def _stub(ns, failed):
+    """Generated file written when a translation site of the CURRENT tree raised: no definitions, only the reasons"""
+    why = "\n".join("  " + f["site"] + ": " + str(f.get("detail", "")).replace("-/", "- /")[:300] for f in failed)
+    return ("/- STUB: the translator could not read the current source tree; no definition is emitted, so every bridge fails to build.\n"
+            + why + "\n-/\nnamespace Mouette.Generated." + ns + "\nend Mouette.Generated." + ns + "\n")
+
+
 def translate():
     sites = []
     body = ["namespace Mouette.Generated.C07\n"]
@@ -1367,11 +1440,15 @@ def translate():
     body.append("end Mouette.Generated.C07\n")
     if all(s["ok"] for s in sites):
         T.write_generated("C07Idx", "".join(body))
+    else:   # never leave the fragments of an earlier tree on disk: a stub without the definitions (the bridges then fail to build)
+        T.write_generated("C07Idx", _stub("C07", [s for s in sites if not s["ok"]]))
     # function BODIES read imperatively (vlib/gen/c07_translate.py) -> Generated/C07Src.lean, bridged in Props/C07Source.lean
     from ..gen import c07_translate as CT
     text, bsites, info = CT.translate_c07()
     if all(s["ok"] for s in bsites):
         T.write_generated("C07Src", text)
+    else:
+        T.write_generated("C07Src", _stub("C07Src", [s for s in bsites if not s["ok"]]))
     missing = sorted(set(BRIDGES) - set(info["translated"]))
     for m in missing:
         if not any((not b["ok"]) for b in bsites):
@@ -1407,15 +1484,9 @@ SOURCE_MAP.update({
     "mouette/attributes/attr_faces.py::face_near_border": _OOS + "combinatorial flag, not a geometric quantity of the statement",
     "mouette/attributes/attr_faces.py::triangle_aspect_ratio": "oracle-only",
     "mouette/attributes/attr_faces.py::parallel_transport_curvature": _OOS + "needs a connection object (C18)",
-    "mouette/attributes/attr_corners.py::corner_angles": "modelled",     # body translated (Generated.C07Src.corner_angles) but not yet bridged: counted as modelled
     "mouette/attributes/attr_corners.py::cotangent": "modelled",         # argument table translated (cotanArgs_bridge), loop hand-modelled
     "mouette/attributes/attr_cells.py::cell_faces_on_boundary": _OOS + "combinatorial flag, not a geometric quantity of the statement",
-    "mouette/attributes/interpolate.py::interpolate_vertices_to_faces": "modelled",
-    "mouette/attributes/interpolate.py::interpolate_faces_to_vertices": "modelled",   # sum/uniform modelled, area/angle through wmean + oracle; clear() sites translated
-    "mouette/attributes/interpolate.py::scatter_vertices_to_corners": "oracle-only",
-    "mouette/attributes/interpolate.py::average_corners_to_vertices": "oracle-only",  # clear() sites translated (interp_outputs_cleared)
-    "mouette/attributes/interpolate.py::scatter_faces_to_corners": "oracle-only",
-    "mouette/attributes/interpolate.py::average_corners_to_faces": "oracle-only",
+    "mouette/attributes/interpolate.py::scatter_faces_to_corners": "oracle-only",   # body translated (Generated.C07Src.scatter_faces_to_corners), not bridged
 })
 
 
